@@ -206,13 +206,17 @@ func genE(r *vh.Rand) string {
 		rs = nil
 	}
 	na := r.Intn(6)
-	var parts []string
+	var parts, toks []string
 	for i := 0; i < na; i++ {
 		c := genECond(r, rs, 0)
 		cl := "d" + string(rune('0'+i))
 		if r.Chance(1, 40) {
 			cl = ""
 		}
+		if len(toks) > 0 && r.Chance(1, 5) { // the same condition again with another cluster: the first one wins
+			c.tok = toks[r.Intn(len(toks))]
+		}
+		toks = append(toks, c.tok)
 		parts = append(parts, c.tok+"!"+cl)
 	}
 	p := c1xroute.GenProbePath(r, rs)
@@ -304,7 +308,11 @@ func gen(r0 *vh.Rand) string {
 			if r.Chance(1, 30) {
 				c = "ADVANCED_MODE"
 			}
-			adv = append(adv, c1xroute.Adv{Cond: genCond(r, rs, 0), Cluster: c})
+			cond := genCond(r, rs, 0)
+			if i > 0 && r.Chance(1, 5) { // duplicate condition, different cluster: configured order decides
+				cond = adv[r.Intn(i)].Cond
+			}
+			adv = append(adv, c1xroute.Adv{Cond: cond, Cluster: c})
 		}
 	}
 	b, a := "none", "none"
